@@ -262,7 +262,7 @@ func c07refuse(c *core.Ctx) {
 		return
 	}
 	guards := map[string]bool{}
-	ast.Inspect(d.Decl.Body, func(n ast.Node) bool {
+	inspectDeep(c, d, 1, func(hd *core.DeclSite, n ast.Node) bool {
 		ifs, ok := n.(*ast.IfStmt)
 		if !ok {
 			return true
@@ -435,10 +435,16 @@ func c07share(c *core.Ctx) {
 		return "?"
 	}
 	n := 0
-	ast.Inspect(d.Decl.Body, func(nd ast.Node) bool {
+	inspectDeep(c, d, 1, func(hd *core.DeclSite, nd ast.Node) bool {
 		call, ok := nd.(*ast.CallExpr)
 		if !ok || !strings.HasSuffix(core.ExprStr(call.Fun), ".AddConstraint") || len(call.Args) != 1 {
 			return true
+		}
+		if hd.Decl != d.Decl && !strings.HasPrefix(core.Rel(hd.Pkg.PkgPath), "notations/jschema/loader") {
+			return true
+		}
+		if hd.Decl != d.Decl && hd.Decl.Recv != nil {
+			return true // methods of the compiler are other phases; only plain helpers of extendWith count
 		}
 		n++
 		key := core.F("extendWith:AddConstraint#%d", n)
